@@ -28,6 +28,8 @@ TEMPLATES = {
     "dataclass": ("    res.append(new == snapshot(P(a=h0, b=5, c=[c1])))\n", ["h0", "c1", "n0", "n1"], "P(a=n0, c=[n1])"),
     "dataclass_insert_delete": ("    res.append(new == snapshot(R(a=h0, b=0, c=c1)))\n", ["h0", "c1", "n0", "n1", "n2"], "R(a=n0, c=n1, d=n2)"),
     "dataclass_insert_middle": ("    res.append(new == snapshot(R(a=c0, b=0, d=c1)))\n", ["c0", "c1", "n0", "n1", "n2"], "R(a=n0, c=n1, d=n2)"),
+    "nested_inner_list": ("    res.append(new == snapshot([snapshot(c0), snapshot(h1)]))\n", ["c0", "h1", "n0", "n1"], "[n0, n1]"),
+    "nested_inner_tuple": ("    res.append(new == snapshot((snapshot(h0), snapshot(c1), c2)))\n", ["h0", "c1", "c2", "n0", "n1", "n2"], "(n0, n1, n2)"),
     "three_sites": ("    res.append(new[0] == snapshot())\n    res.append(new[1] <= snapshot(c0))\n    res.append(new[0] in snapshot([c1, h2]))\n", ["c0", "c1", "h2", "n0", "n1"], "[n0, n1]"),
     "dict_eq": ("    res.append(new == snapshot({1: h0, 2: c1}))\n", ["h0", "c1", "n0", "n1"], "{1: n0, 3: n1}"),
     "nested_sub": ("    s = snapshot({1: {2: h0, 3: c1}})\n    res.append(s[1][2] == new[0])\n    res.append(s[5] == new[1])\n", ["h0", "c1", "n0", "n1"], "[n0, n1]"),
@@ -82,7 +84,7 @@ def conditions(tier):
     orders = list(itertools.permutations(CATS))
     for tname, (body, names, new_src) in TEMPLATES.items():
         for oi, order in enumerate(orders):
-            if q and tname.startswith("dataclass_insert") and oi % 4 != 1:
+            if q and (tname.startswith("dataclass_insert") or tname.startswith("nested_inner")) and oi % 4 != 1:
                 continue  # 6 of the 24 orders in the quick tier for the two most expensive templates
             vd = "{" + ", ".join(f"{n!r}: {n}" for n in names) + "}"
             name = f"order_{tname}_{''.join(c[0] for c in order)}"
